@@ -4,6 +4,7 @@
 #include "stats.h"
 #include <rapidcheck.h>
 #include <unistd.h>
+extern "C" int __llvm_profile_write_file(void) __attribute__((weak));
 
 extern "C" void __sanitizer_set_death_callback(void (*)(void)) __attribute__((weak));
 
@@ -96,5 +97,6 @@ int main()
     }
     g_stats.write(g_out, g_info);
     fflush(nullptr);
+    if (__llvm_profile_write_file) { __llvm_profile_write_file(); } // coverage builds of tools/coverage_audit.py only
     _exit(ok ? 0 : 1);
 }
